@@ -231,6 +231,50 @@ def break_only_from_visitor_rule(chk, P, key):
     chk.ob(key, "no Props::for_each impl answers Break unless its visitor (or an inner enumeration) did", f)
 
 
+def parked_outcome_rule(chk, P, key, select):
+    """Where a visitor closure handed to `for_each` parks the outcome of a fallible step in a captured slot (to report it after the enumeration), the
+    first failure must stay there: the closure either stores only on the Err edge, or stops the enumeration (returns Break) when the stored outcome is
+    an Err.  A closure that overwrites the slot on every entry and always continues reports the outcome of the *last* entry only - an earlier failure
+    is lost and the half-written entry is reported as success."""
+    def f():
+        n, ev = 0, []
+        for k, b in sorted(P.bodies.items()):
+            if not select(b):
+                continue
+            for fe in [c for c in b.calls(normal_only=True) if c.callee.get("name") == "for_each" and len(c.args) >= 2]:
+                cl = mir.o_root(b.origin(fe.args[1]))
+                if not (cl[0] == "agg" and cl[1].get("def")):
+                    continue
+                cb = P.bodies.get(cl[1]["def"])
+                if cb is None:
+                    continue
+                for bb, j, st in cb.statements(normal_only=True):
+                    pl = st["place"] if st["k"] == "assign" else None
+                    if not pl or pl["l"] != 1 or not pl.get("p") or st["rv"]["k"] != "use":
+                        continue
+                    src = st["rv"]["op"]
+                    sl = cb._op_local(src)
+                    ty = cb.local_ty(sl) if sl is not None else ""
+                    if not re.match(r"(core::result::)?Result<", ty or ""):
+                        continue
+                    o = cb.origin(src)
+                    if o[0] == "agg":           # `slot = Err(e)` / `slot = Some(e)` built on an inspected edge
+                        continue
+                    n += 1
+                    guarded = any(cb.switch_origin(g)[0] == "discr" for g, vals, tgt in cb.guards_of(bb)
+                                  if "Result" in o_str(cb.switch_origin(g)) or cb.switch_origin(g)[0] == "discr")
+                    breaks = [1 for b2, j2, s2 in cb.statements(normal_only=True) if s2["k"] == "assign" and s2["rv"]["k"] == "agg"
+                              and s2["rv"].get("variant") == "Break" and (s2["rv"].get("adt") or "").endswith("ControlFlow")]
+                    passes_on = any(c2.callee.get("name") in ("branch", "from_residual") for c2 in cb.calls(normal_only=True))
+                    if not guarded and not breaks and not passes_on:
+                        return False, ("the visitor closure of %s stores the outcome of %s into a captured slot on every entry and always continues: a failed entry is "
+                                       "overwritten by the next successful one, so the enumeration's result is that of the last entry only and a half-written "
+                                       "entry is reported as success" % (b.key, o_str(o)[:80])), [], "%s:%s" % (cb.file, st.get("line"))
+                    ev.append("%s:%s" % (cb.file, st.get("line")))
+        return True, "", ev or ["no visitor parks a Result in a captured slot unconditionally (%d stores examined)" % n]
+    chk.ob(key, "a visitor that parks a fallible step's outcome keeps the first failure (stores on Err only, or breaks)", f)
+
+
 def no_truncating_adaptors_rule(chk, P, key):
     def no_truncating_adaptors():
         EARLY = ("map_while", "take_while", "take", "scan", "step_by", "nth", "last", "min", "max", "find", "position", "any", "all")
@@ -806,6 +850,7 @@ def run(chk):
         common.results_inspected_rule(
             chk, P, "C02.R4:macro-errors-propagate", "no fallible step of the proc-macro crate (duplicate-key check, attribute validation, argument parsing) has its Result discarded",
             lambda b: b.crate == "emit_macros" and "::tests::" not in b.key, {}, 100)
+    parked_outcome_rule(chk, P, "C02.R1:parked-outcome-kept", lambda b: b.crate in ("emit_core", "emit") and "::tests::" not in b.key)
     break_only_from_visitor_rule(chk, P, "C02.R1:break-only-from-visitor")
     common.wrapper_family_rule(chk, P, "C02", "emit_core::props::Props", 2, forward=False, allow={
         ("alloc::boxed::Box<", "get"): "the default get enumerates the boxed collection's own for_each (coherent by construction)",
